@@ -154,6 +154,21 @@ theorem findFork_eq_lca (ps : List Nat) (hv : ValidFrom 1 ps) (t n : Nat)
   rw [← parent_build]
   exact Lemmas.findFork_eq_lca wf t n (by omega) (by omega)
 
+/-- what the Spec's `lca` returns is a node of both parent walks, and no earlier node of `n`'s
+    walk lies on `t`'s walk -/
+theorem lca_is_first_common (P : Nat → Option Nat) (t n f : Nat) (h : lca P t n = some f) :
+    f ∈ pathUp P n ∧ f ∈ pathUp P t ∧
+    ∃ pre post, pathUp P n = pre ++ f :: post ∧ ∀ a ∈ pre, a ∉ pathUp P t := by
+  unfold lca at h
+  have h1 := List.mem_of_find?_eq_some h
+  have h2 := List.find?_some h
+  simp only [List.contains_iff_mem] at h2
+  obtain ⟨_, pre, post, hsplit, hpre⟩ := List.find?_eq_some_iff_append.mp h
+  refine ⟨h1, h2, pre, post, hsplit, ?_⟩
+  intro a ha
+  have := hpre a ha
+  simpa using this
+
 /-! ### block locator -/
 
 /-- `blockLocator(n)` on the view of any tip `t` lists, for main-chain and side-chain nodes alike,
@@ -300,6 +315,13 @@ theorem bestHeader_is_most_work_accepted (e : HF.Env) (ops : List HF.Op)
     let s := HF.run e {} ops
     (s.h.best = 0 ∨ s.h.best ∈ s.h.accepted) ∧ ∀ m ∈ s.h.accepted, e.W m ≤ e.W s.h.best :=
   HF.run_bestOk e ops {} hW (HF.bestOk_init e)
+
+/-- the best header moves only to a header with strictly more work: among equal-work chains the
+    first one seen stays -/
+theorem bestHeader_first_seen_wins (e : HF.Env) (b : HF.BState) (h : HF.HState) (n : Nat)
+    (hW : e.W (e.parent n) < e.W n) (hne : (HF.stepHeader e b h n).1.best ≠ h.best) :
+    (HF.stepHeader e b h n).1.best = n ∧ e.W h.best < e.W n :=
+  HF.stepHeader_best_moves_up e b h n hW hne
 
 /-- the hypothesis holds for the chain 0 ← 1 ← 2 with work = height + 1, and the theorem's
     conclusion is about a non-trivial state there -/
